@@ -32,7 +32,8 @@ T = {
              "caught", "quick seed 1", "c09 bounded sequences: deleted-entry-live-at-quiescence",
              "missed at first by the random histories; added c09_bounded (every sequence up to length 3/4 over 9 symbols on two real replicas)"),
  "C12-p12": ("C12", "an OAuth2 session value set that was decoded from its stored form (restart, cache eviction, restore, replication) and is then queried by resource-server uuid",
-             None, None, None, None),
+             "caught", "quick seed 1", "c12/valueset-behaviour-changed/Oauth2Session",
+             "strengthened before the first run, from the change description alone: equality, re-encoding and the type-specific probes do not see derived state, so every value set is now also queried through the generic interface (display strings, index keys, membership, membership and removal by referenced uuid) before and after the round trip"),
  "C13-m13": ("C13", "a backup taken after purge_tombstones recorded an anchor change id with an empty id list",
              "caught", "quick seed 1", "c13 RUV differs after restore", None),
  "C16-n16": ("C16", "an OAuth2 client whose claim map maps the same group under two claim names, then the group is deleted",
@@ -44,27 +45,29 @@ T = {
  "C19-n19": ("C19", "two entries in one incoming replication change set end up with the same name while no third entry holds it",
              "caught", "quick seed 1", "c19/duplicate-unique-value/{name,spn}/replicated", None),
  "C22-p22": ("C22", "an entry is deleted, the domain is renamed, then the entry is revived",
-             None, None, None, None),
+             "caught", "quick seed 1", "c22/spn-domain-part-stale/after-revive", None),
  "C23-n23": ("C23", "an entry-manager search access profile and a target entry without entry_managed_by",
              "caught", "quick seed 1", "c23/attribute-returned-without-grant/searchext, c23/entry-released-through-unreadable-filter-attr/searchext", None),
  "C24-m24": ("C24", "a Modify::Set on an attribute for which the matching profiles grant presence but not removal",
              "caught", "quick seed 1", "c24/modify-removed-values-without-remove-grant", None),
  "C26-n26": ("C26", "one revive request brings back two or more entries that were direct members of the same still-live group",
-             None, None, None,
-             "missed at first (every revive named one entry, dependents' memberships not judged); Op::Revive may name two entries, revive-dense sub-profile, oracle judges every entry the request made live"),
+             "caught", "quick seed 1", "c26/direct-membership-not-restored-on-revive/scripted",
+             "missed three times (every revive named one entry; then two-entry revives and a revive-dense sub-profile reached a shared live group only once or twice per run); added c26_scripted: every assignment of two persons and a dependent certificate to two groups x delete order x group deleted or not x four revive requests, and the oracle now judges every entry the request made live"),
  "C27-m27": ("C27", "the client chooses a mechanism the session did not offer (refused), then continues on the same session with an offered mechanism",
-             None, None, None,
+             "caught", "quick seed 1", "c27/step-accepted-after-refused-mechanism-choice/continue",
              "missed at first (the refused choice is an error answer to the client, which the monitor did not treat as the end of the session); a refused mechanism choice is now terminal for the monitor"),
  "C32-m32": ("C32", "account_valid_from moved into the future while account_expire is absent, token presented before the new start",
              "caught", "quick seed 1", "c32/accepted-before-valid-from/api", None),
- "C33-p33": ("C33", "an OAuth2-trust (external IdP) login that asks for privileges at init", None, None, None, None),
+ "C33-p33": ("C33", "an OAuth2-trust (external IdP) login that asks for privileges at init",
+             "caught", "quick seed 1", "c33/write-scope-for-readonly-login-type/oauth2-trust",
+             "missed at first (logins through an external provider were not driven); idmsim now sets up a trusted provider, links persons to it and scripts the front end's provider round trips, with and without the privileged flag"),
  "C36-p36": ("C36", "a login's session record is written AFTER the credential that issued it was removed in its own write", None, None, None, None),
- "C37-n37": ("C37", "a reset link exchanged once before its expiry (not committed), time advanced past the expiry, exchanged again", None, None, None, None),
- "C38-m38": ("C38", "a client with a supplementary scope map holding a scope no ordinary scope map gives the user, and a request naming that scope", None, None, None, None),
- "C39-p39": ("C39", "a client with PKCE made optional, an authorisation request that still sent a challenge, a token request without verifier", None, None, None, None),
+ "C37-n37": ("C37", "a reset link exchanged once before its expiry (not committed), time advanced past the expiry, exchanged again", "caught", "quick seed 1", "c37/exchange-accepted-after-expiry", None),
+ "C38-m38": ("C38", "a client with a supplementary scope map holding a scope no ordinary scope map gives the user, and a request naming that scope", "caught", "quick seed 1", "c38/scope-unmapped-granted, c38/scope-not-held-granted", None),
+ "C39-p39": ("C39", "a client with PKCE made optional, an authorisation request that still sent a challenge, a token request without verifier", "caught", "quick seed 1", "c39/code-redeemed-without-verifier", None),
  "C47-p47": ("C47", "a supervisor tree of depth >= 2, parent stop already consumed by the subordinate, an actor below still busy, and an explicit stop() on the subordinate in that window",
              "caught", "quick seed 1", "c47/stop-returned-before-cleanup-done", None),
- "C50-p50": ("C50", "a sync request from agreement B naming, without externalId, a live sync object owned by agreement A, together with another entry that has an externalId", None, None, None, None),
+ "C50-p50": ("C50", "a sync request from agreement B naming, without externalId, a live sync object owned by agreement A, together with another entry that has an externalId", "caught", "quick seed 1", "c50/sync-changed-other-agreement-entry", None),
 }
 
 def confirm(d):
